@@ -65,7 +65,8 @@ SlotsOut(F) ==
 (* out_slots, ops); state_root covers Canon(state, Root).  Policy and rule *)
 (* pack are constants of one engine.  A tuple is an injective constructor. *)
 (***************************************************************************)
-CommitId(parent, s, patch, ins, outs) == <<"commit", parent, Canon(s, Root), patch, ins, outs>>
+CommitIdC(parent, cn, patch, ins, outs) == <<"commit", parent, cn, patch, ins, outs>>
+CommitId(parent, s, patch, ins, outs)  == CommitIdC(parent, Canon(s, Root), patch, ins, outs)
 
 (***************************************************************************)
 (* The engine                                                              *)
@@ -98,21 +99,28 @@ PendingOracle(e, tx) == TickOracle(e.state, e.pend[tx])
 \* InternalCorruption; such ticks are outside this model.)
 CommitOk(e, tx) == tx \in e.live /\ PendingOracle(e, tx).ok
 
-\* Engine::commit_with_receipt
+\* Engine::commit_with_receipt.  `canon` is the content the snapshot's state_root commits to (kept in the record so
+\* that it is computed once per tick); `ok` = the merged ops applied.
 TickRecord(e, tx) ==
   LET o     == PendingOracle(e, tx)
       fps   == {CandFP(c, e.state) : c \in o.accepted}
       patch == Diff(e.state, o.post)              \* diff_state(state_before, state)
       ins   == SlotsIn(fps)
       outs  == SlotsOut(fps)
-  IN [tx |-> tx, cands |-> e.pend[tx], order |-> o.order, acc |-> o.acc, accepted |-> o.accepted,
-      pre |-> e.state, post |-> o.post, patch |-> patch, inSlots |-> ins, outSlots |-> outs,
+      cn    == Canon(o.post, Root)
+  IN [tx |-> tx, cands |-> e.pend[tx], order |-> o.order, acc |-> o.acc, accepted |-> o.accepted, ok |-> o.ok,
+      pre |-> e.state, post |-> o.post, canon |-> cn, patch |-> patch, inSlots |-> ins, outSlots |-> outs,
       parent |-> e.last,                           \* parents = last_snapshot.hash, [] before the first commit
-      commit |-> CommitId(e.last, o.post, patch, ins, outs)]
-DoCommit(e, tx) ==
-  LET rec == TickRecord(e, tx)
-  IN [e EXCEPT !.state = rec.post, !.ledger = Append(@, rec), !.last = rec.commit,
-               !.live = @ \ {tx}, !.pend = Del(@, tx)]
+      commit |-> CommitIdC(e.last, cn, patch, ins, outs)]
+CommitWith(e, tx, rec) ==
+  [e EXCEPT !.state = rec.post, !.ledger = Append(@, rec), !.last = rec.commit,
+            !.live = @ \ {tx}, !.pend = Del(@, tx)]
+DoCommit(e, tx) == CommitWith(e, tx, TickRecord(e, tx))
+
+\* commit_with_receipt returning Err (the merged ops of the accepted rewrites do not apply): the INTENDED law is
+\* that nothing is committed - state, ledger and tip untouched; the transaction was drained and stays live until
+\* the caller aborts it.  (As built the ops are applied in place, see the `fail` steps of MC_C04l.)
+DoFailedCommit(e, tx) == [e EXCEPT !.pend = Upd(@, tx, {})]
 
 \* Engine::abort: closes the transaction, drops its pending rewrites; state, ledger, last_snapshot untouched
 DoAbort(e, tx) == [e EXCEPT !.live = @ \ {tx}, !.pend = Del(@, tx)]
